@@ -16,6 +16,29 @@ const MASK96: u128 = (1u128 << 96) - 1;
 /// Returns the clause that failed, if any.  `deep` adds the wire round trip through bytes and
 /// (IPv6) the 96 single-bit-different transaction ids.
 fn xma_check(a: SocketAddr, t: u128, deep: bool) -> Option<(&'static str, String, String)> {
+    if deep {
+        // every operation is preceded, on the same thread, by the same operation under related
+        // transaction ids (and another address): a memo or cache keyed on part of the id, or on the
+        // id alone, would hand the stale result to the operation that is judged
+        for t2 in [t ^ (1u128 << 95), t ^ (1u128 << 64), t ^ (1u128 << 63), t ^ 1, !t & MASK96] {
+            let other = SocketAddr::new(if a.is_ipv4() { IpAddr::V6(Ipv6Addr::from([0x20, 1, 2, 3, 4, 5, 6, 7, 8, 9, 10, 11, 12, 13, 14, 15])) } else { a.ip() }, a.port() ^ 0x5555);
+            let y = XorMappedAddress::new(a, t2.into());
+            let _ = y.addr(t2.into());
+            let z = XorMappedAddress::new(other, t2.into());
+            let _ = z.addr(t2.into());
+            let x = XorMappedAddress::new(a, t.into());
+            if x.addr(t.into()) != a {
+                return Some(("addr-roundtrip-after-related-id", format!("{a}"), format!("{} after an operation under id {t2:#x}", x.addr(t.into()))));
+            }
+            let want_wire = attrs::encode(Kind::XorMappedAddress, &Val::Addr(attrs::xor_addr(a, t)));
+            if x.to_raw().value[..] != want_wire[..] {
+                return Some(("wire-encoding-after-related-id", crate::refimpl::crypto::hex(&want_wire), format!("{} after an operation under id {t2:#x}", crate::refimpl::crypto::hex(&x.to_raw().value))));
+            }
+            if a.is_ipv6() && y.addr(t.into()) == a && t2 != t {
+                return Some(("v6-other-tid-same-address", "a different address".into(), format!("same address under id {t2:#x} and {t:#x}")));
+            }
+        }
+    }
     let x = XorMappedAddress::new(a, t.into());
     let back = x.addr(t.into());
     if back != a {
@@ -232,7 +255,7 @@ pub fn run(ctx: &Ctx) -> Report {
         .reduce(Acc::default, |a, b| a.merge(b));
     acc.nontrivial = n_cases;
     let mut bounds = json!({"ports": 65536, "lane_walk_backgrounds": 5, "cases": n_cases});
-    let mut rule = "all 65536 ports x 4 addresses x 3 tids; every byte lane of IPv4/IPv6 address and of the transaction id takes all 256 values against 5 backgrounds (zeros, ones, equal to the XOR key, complement, seeded); boundary tids; 17 special-purpose addresses (unspecified, loopback, IPv4-mapped / -compatible, NAT64, link-local, multicast, 6to4, ...) x 5 ports x 4 tids; IPv4: all 6 lane pairs x all 65536 value pairs; IPv6: adjacent lanes and lanes 8 apart x 256 x (every 5th value + boundary set; all 256 in thorough); IPv6: all 96 single-bit-different tids".to_string();
+    let mut rule = "all 65536 ports x 4 addresses x 3 tids; every byte lane of IPv4/IPv6 address and of the transaction id takes all 256 values against 5 backgrounds (zeros, ones, equal to the XOR key, complement, seeded); boundary tids; 17 special-purpose addresses (unspecified, loopback, IPv4-mapped / -compatible, NAT64, link-local, multicast, 6to4, ...) x 5 ports x 4 tids; IPv4: all 6 lane pairs x all 65536 value pairs; IPv6: adjacent lanes and lanes 8 apart x 256 x (every 5th value + boundary set; all 256 in thorough); IPv6: all 96 single-bit-different tids; every judged operation is preceded on the same thread by operations under five related transaction ids".to_string();
     if ctx.tier == Tier::Thorough {
         // all 2^32 IPv4 addresses x 2 ports x 2 tids (fast path: address round trip + wire encoding)
         let fails = AtomicU64::new(0);
